@@ -8,6 +8,9 @@ and never imports skoolkit.  Annotations are *token lists*; a token is either a 
 without white space) or a block:
 
     ('L', (item, item, ...))            item  = tuple of words        -> #LIST { .. } LIST#
+    ('L', (item, item, ...), bullet)    the same with the bullet parameter -> #LIST(,bullet) { .. } LIST#
+                                        (bullet None = parameter not given: the list uses the
+                                        writer's `bullet` property, default '*')
     ('T', wrap, (row, row, ...))        row   = tuple of cells, cell = tuple of words; the
                                         first word of a cell may be an attribute word
                                         '=r2' / '=c2' / '=h' / '=h,c2' (rowspan, colspan, header);
@@ -80,7 +83,7 @@ def render_token(tok):
     if isinstance(tok, str):
         return [tok]
     if tok[0] == 'L':
-        out = ['#LIST']
+        out = ['#LIST' if list_bullet_param(tok) is None else '#LIST(,{})'.format(tok[2])]
         for item in tok[1]:
             out += ['{'] + list(item) + ['}']
         return out + ['LIST#']
@@ -105,17 +108,41 @@ def source_words(tokens):
     return out
 
 
-def flat_tokens(tokens, mode):
+def list_bullet_param(tok):
+    """The bullet parameter of a list token (None: not given)."""
+    return tok[2] if len(tok) > 2 else None
+
+
+def list_bullet(tok, prop=BULLET):
+    """The bullet skool2asm writes before every item of this list ("The bullet character can be
+    changed for all lists by ... the bullet property, or ... for a specific list by setting the
+    bullet parameter"); prop is the value of the property (default '*'; may be empty)."""
+    b = list_bullet_param(tok)
+    return prop if b is None else b
+
+
+def bullets_in(tokens, prop=BULLET):
+    """The set of non-empty bullets the lists of an annotation are written with."""
+    return set(list_bullet(t, prop) for t in tokens if not isinstance(t, str) and t[0] == 'L') - {''}
+
+
+def flat_tokens(tokens, mode, bullet=BULLET):
     """Expected token stream of an annotation in the output.
-    mode 'asm': list items are introduced by the bullet; tables are compared separately.
-    mode 'html': LI / TD markers.  mode 'plain': words only (blocks not allowed)."""
+    mode 'asm': list items are introduced by the bullet (the list's own bullet parameter, else
+    `bullet` = the writer's bullet property; nothing if that is empty); tables are compared
+    separately.  mode 'html': LI / TD markers (the bullet is an ASM-mode matter).  mode 'plain':
+    words only (blocks not allowed)."""
     out = []
     for t in tokens:
         if isinstance(t, str):
             out.append(t)
         elif t[0] == 'L':
             for item in t[1]:
-                out.append(BULLET if mode == 'asm' else LI)
+                if mode == 'asm':
+                    if list_bullet(t, bullet):
+                        out.append(list_bullet(t, bullet))
+                else:
+                    out.append(LI)
                 out += list(item)
         else:
             if mode == 'asm':
